@@ -193,7 +193,15 @@ impl Snap {
 
 /// Render a timestamp relative to the run's base instant: "now" for stamps taken during the run,
 /// otherwise the crafted age in whole seconds (positive = in the past).
+/// The far-future stamp of crafted age class 99: half an hour before the largest SystemTime.
+pub fn far_future() -> SystemTime {
+    UNIX_EPOCH + Duration::from_secs(i64::MAX as u64 - 1800)
+}
+
 pub fn fmt_ls(ls: SystemTime, base: SystemTime) -> String {
+    if ls == far_future() {
+        return "far_future".into();
+    }
     let age: f64 = match base.duration_since(ls) {
         Ok(d) => d.as_secs_f64(),
         Err(e) => -e.duration().as_secs_f64(),
